@@ -44,8 +44,10 @@ struct Out {
     code: Option<i32>,
 }
 
-/// Runs the n2 binary; if it does not finish within 40 s it is killed and the
-/// result says so (exit code None, output `N2-TIMEOUT`).
+/// Runs the n2 binary; if it does not finish within 90 s (generous: the
+/// scenarios take well under a second on an idle machine, and a loaded machine
+/// must not turn into a verdict) it is killed and the result says so (exit
+/// code None, output `N2-TIMEOUT`).
 fn n2(args: &[&str]) -> Out {
     use std::io::Read;
     let out_path = "n2.stdout.tmp";
@@ -59,7 +61,7 @@ fn n2(args: &[&str]) -> Out {
         .env_remove("NINJA_STATUS")
         .spawn()
         .expect("run n2 binary");
-    let deadline = std::time::Instant::now() + std::time::Duration::from_secs(40);
+    let deadline = std::time::Instant::now() + std::time::Duration::from_secs(90);
     let code = loop {
         match child.try_wait().expect("wait") {
             Some(st) => break st.code(),
